@@ -16,7 +16,7 @@ RULE = ('one execution = one utility call with one matrix, one parameter and one
 EXHAUSTIVE = {'quick': 'every p = j/64, j = 0..64, for each threshold_proportional input',
               'thorough': 'every p = j/64, j = 0..64, for each threshold_proportional input'}
 ASSUMPTIONS = ['with ties at the cut any choice among equal weights is accepted (no kept entry weaker than a dropped one)',
-               'float64 input for normalize / invert', 'the expected count is round_half_up(p x N) computed in exact '
+               'float64 input for normalize; integer input for invert / binarize / threshold_absolute only with copy=True', 'the expected count is round_half_up(p x N) computed in exact '
                'rational arithmetic; only p with exactly representable p x N are used']
 REQUIRED = ['threshold_proportional/count', 'threshold_proportional/strongest_kept', 'threshold_proportional/values_unchanged',
             'threshold_proportional/symmetric', 'threshold_proportional/empty_diagonal', 'threshold_absolute/entries',
@@ -251,6 +251,33 @@ def run_util(case, bct, REC):
             REC.check(PROP, 'weight_conversion', 'copy_semantics', False, {'W': W, 'cmd': cmd, 'exception': repr(e)[:200]})
     for fname in ('binarize', 'normalize', 'invert'):
         copy_semantics(REC, fname, getattr(bct, fname), W, (), None)
+    # the same utilities on connection COUNTS held in integer arrays (default copy=True: the result is a new array,
+    # so it can and must hold 1/w; with copy=False an integer argument cannot hold the result and is not judged)
+    scale = 3.0 / max(float(np.max(np.abs(W))), 1e-300)
+    for dt in (np.int64, np.int32, np.uint8):
+        Wi = np.round(W * scale)
+        if dt is np.uint8:
+            Wi = np.abs(Wi)
+        Wi = Wi.astype(dt)
+        if not np.any(Wi):
+            continue
+        Wf = Wi.astype(float)
+        cls = ('integer_dtype:' + np.dtype(dt).name,)
+        with np.errstate(all='ignore'):
+            expi = np.where(Wf != 0, 1.0 / np.where(Wf != 0, Wf, 1), 0.0)
+        for label, f, args in (('invert', bct.invert, ()), ('weight_conversion', bct.weight_conversion, ('lengths',))):
+            ok, X = call(REC, PROP, label, f, Wi.copy(), *args, _classes=cls)
+            if ok:
+                REC.check(PROP, label, 'entries' if label == 'invert' else 'dispatch', close(X, expi, rtol=1e-15, atol=0),
+                          {'W': Wi, 'dtype': str(Wi.dtype), 'got': X, 'expected': expi}, cls)
+        ok, X = call(REC, PROP, 'binarize', bct.binarize, Wi.copy(), _classes=cls)
+        if ok:
+            REC.check(PROP, 'binarize', 'entries', bool(np.array_equal(np.asarray(X), (Wf != 0).astype(float))), {'W': Wi, 'got': X}, cls)
+        for thr in (1, 2):
+            ok, X = call(REC, PROP, 'threshold_absolute', bct.threshold_absolute, Wi.copy(), thr, _classes=cls)
+            if ok:
+                REC.check(PROP, 'threshold_absolute', 'entries', bool(np.array_equal(np.asarray(X), np.where(off & (Wf >= thr), Wf, 0.0))),
+                          {'W': Wi, 'thr': thr, 'got': X}, cls)
     REC.note_nontrivial(PROP, 'util', W)
     REC.sample(PROP, {'kind': 'util', 'W': W if n <= 6 else list(W.shape)}, cap=3)
 
